@@ -234,6 +234,23 @@ class NetProxy(Proxy):
             concretise_reg(object.__getattribute__(self, "_nctx"))
         return real.backward_reachable(unwrap(vs))
 
+    def _whole_graph(name):
+        def m(self, *a, **k):
+            real = object.__getattribute__(self, "_real")
+            if CTX.opaque == 0 and CTX.active:
+                concretise_reg(object.__getattribute__(self, "_nctx"))
+            return getattr(real, name)(*[unwrap(x) for x in a], **k)
+        m.__name__ = name
+        return m
+    # queries about the (semantic = inferred) regulatory graph: answered by the real object after the signed graph of
+    # the denoted network has been pinned
+    successors = _whole_graph("successors")
+    forward_reachable = _whole_graph("forward_reachable")
+    regulations = _whole_graph("regulations")
+    find_regulation = _whole_graph("find_regulation")
+    regulation_count = _whole_graph("regulation_count")
+    del _whole_graph
+
     def strongly_connected_components(self, *a, **k):
         real = object.__getattribute__(self, "_real")
         if CTX.opaque == 0 and CTX.active:
@@ -403,6 +420,13 @@ class GraphProxy(Proxy):
             return r
         name = var if isinstance(var, str) else real.get_network_variable_name(var)
         return FnProxy(r, object.__getattribute__(self, "_nctx"), CTX.net.names.index(name))
+
+    def reconstruct_network(self):
+        real = object.__getattribute__(self, "_real")
+        r = real.reconstruct_network()
+        if CTX.opaque > 0 or not CTX.active:
+            return r
+        return NetProxy(r, object.__getattribute__(self, "_nctx"))
 
 
 def _untracked(o):
